@@ -51,7 +51,7 @@ pub fn absorb(ctx: &Ctx, spec: &SeqSpec, r: &SeqResult, label: &str) {
     drop(md);
     if !r.goal_reached {
         ctx.count("explorations_without_goal", 1);
-        ctx.note(format!("{label}: goal state not reached (vacuity warning)"));
+        ctx.vacuous(format!("{label}: goal state not reached"));
     }
     {
         let mut ex = ctx.extra.lock().unwrap();
